@@ -18,3 +18,6 @@ pub mod drops {
         out[3] = core::mem::offset_of!(ExpandedSecretKey, hash_prefix); out[4] = 32;
     }
 }
+
+#[cfg(all(kani, feature = "serde"))]
+include!(concat!(env!("VERIF_HOOK_DIR"), "/../kani/serde_model.rs"));
